@@ -382,6 +382,10 @@ def c08(ctx):
                   name="MC_Slice", workers=C.NCPU, timeout=1800)
     C.model_check(ctx, "MC_Slice", {"Dev": '{"CapSliceOffByOne"}', "MaxLen": 3}, invariants=["Holds"], spec="Spec",
                   name="MC_Slice_neg", workers=C.NCPU, timeout=600, negative=True)
+    if ctx.tier == T:
+        # the saturation lemma for ALL integer parameters (array lengths 0..6), which is what lets sign*(len+2) stand for 2^63-1
+        C.apalache(ctx, "SliceSat", "Saturation")
+        C.apalache(ctx, "SliceSat", "WrongSaturation", negative=True)
     eval_family(ctx, "C08", {Q: (5, 1), T: (1, 1)})
     eval_family(ctx, "C08i", {Q: (1, 1), T: (1, 1)})
     ctx.exhaustive = ctx.tier == T
